@@ -221,6 +221,14 @@ UNI_TEMPLATES = ["plain é {{ x }} ü", "{% for c in x %}{{ c }}-{% endfor %}€
                  "{% macro m(v) %}«{{ v }}»{% endmacro %}{{ m(x) }}{{ m('日本') }}"]
 
 
+class WriteOnly:
+    def __init__(self):
+        self.parts = []
+
+    def write(self, data):
+        self.parts.append(data)
+
+
 def dump_shard(arg):
     """TemplateStream.dump with every target x encoding x errors x buffering, on templates with non-ASCII output:
     the written bytes equal render().encode(encoding, errors)"""
@@ -237,11 +245,22 @@ def dump_shard(arg):
             for errors in ("strict", "replace", "ignore", "xmlcharrefreplace", "backslashreplace"):
                 for size in (None, 2, 3):
                     expect = corpus.outcome(lambda: text.encode(enc, errors))
-                    for target in ("bytesio", "path"):
+                    for target in ("bytesio", "path", "write-only", "text-write-only", "text-stringio"):
                         def run():
                             s = t.stream(**data)
                             if size:
                                 s.enable_buffering(size)
+                            if target == "write-only":
+                                # a file-like object that only has write() (a socket wrapper, a WSGI writer)
+                                w = WriteOnly()
+                                s.dump(w, encoding=enc, errors=errors)
+                                return b"".join(w.parts)
+                            if target in ("text-write-only", "text-stringio"):
+                                # no encoding: the target receives text
+                                w = WriteOnly() if target == "text-write-only" else io.StringIO()
+                                s.dump(w)
+                                r = "".join(w.parts) if target == "text-write-only" else w.getvalue()
+                                return r.encode(enc, errors)
                             if target == "bytesio":
                                 b = io.BytesIO()
                                 s.dump(b, encoding=enc, errors=errors)
